@@ -6,7 +6,7 @@ import random
 import sys
 
 import interp
-from common import Result, pmap, compare, VERIF, HANG, ERR, thaw
+from common import confirm_hang, Result, pmap, compare, VERIF, HANG, ERR, thaw
 
 ID = 'C01'
 COQ_FILES = ['Properties/C01.v', 'Proofs/TotalProofs.v', 'Gen/Grammar.v', 'Gen/Wrapper.v']
@@ -315,6 +315,8 @@ def explore(ctx):
     hangs = 0
     for (k, c), vs in zip(work, pmap(_worker, work, limit=4.0)):
         if vs == HANG:
+            vs = confirm_hang(_worker, (k, c))
+        if vs == HANG:
             hangs += 1
             R.violate({k: list(c) if isinstance(c, tuple) else c}, '%s %r' % (k, c), None, 'returns within 4 s', 'no return (time limit)')
             continue
@@ -352,6 +354,8 @@ def search(ctx, proof, res):
             for kind in ('fn_returns', 'var', 'listener_sets'):
                 work.append(('callback', (kind, what, ctxt)))
     for (k, c), vs in zip(work, pmap(_worker, work, limit=4.0)):
+        if vs == HANG:
+            vs = confirm_hang(_worker, (k, c))
         if vs == HANG:
             R.violate({k: list(c) if isinstance(c, tuple) else c}, '%s %r' % (k, c), None, 'returns within 4 s', 'no return (time limit)')
             continue
